@@ -77,7 +77,11 @@ def gen(rng, ctx):
         for v in rng.sample(names, min(len(names), rng.randint(1, 3))):
             m[v] = rng.choice(["\\" + v + "[0]", "\\" + v + "-1", "\\" + v + "$x", "\\1" + v, "\\" + v + "//a", "\\" + v + "/*", "\\*/" + v, "\\" + v + ");"])
         kind += "+escaped"
-    elif r < 0.45:
+    elif r < 0.33:
+        for v in rng.sample(names, min(len(names), rng.randint(1, 3))):
+            m[v] = rng.choice([v + "$", v + "$1", "_" + v, "__" + v + "_", v.upper() + "$x"])
+        kind += "+dollar_underscore"
+    elif r < 0.5:
         preds = G.cd_preds(cd)
         tps = G.cd_types(cd)
         wide = [n for n in names if tps[n] in G.GATESN and len(preds[n]) >= 3]
@@ -198,5 +202,5 @@ def check(case, ctx):
 
 
 def gates(counters, table, tier):
-    need = ["class:no_inputs", "class:no_outputs", "behavioral:True", "behavioral:False", "class:bb", "class:escaped", "class:lookalike", "with_constants", "unconnected_pins", "identical_graph_branch", "via_file"]
+    need = ["class:dollar_underscore", "class:no_inputs", "class:no_outputs", "behavioral:True", "behavioral:False", "class:bb", "class:escaped", "class:lookalike", "with_constants", "unconnected_pins", "identical_graph_branch", "via_file"]
     return [f"{k} seen {counters.get(k, 0)} times" for k in need if counters.get(k, 0) < 5]
